@@ -394,6 +394,8 @@ def check(rep):
                 rep.violation('C11/not-closed-after-close', 'after close(): %r' % (r['state'],), replay)
         elif k == 'conn-close' and 'conn_closes' in r:
             if sc.get('pending'):
+                lines.append('c11.connerr %s 3 1' % sc['pending'])
+                expect.append('sent=%d state=0 overflow=false' % r['conn_closes'])
                 want = 1 if sc['pending'] == 'close' else 0
                 if r['conn_closes'] != want:
                     rep.violation('C11/connection-close-count/error-pending', 'with a connection error already recorded, %s sent %d Connection.Close '
